@@ -364,6 +364,9 @@ func RunC12(r *Run) {
 		if !ok {
 			r.Harness("victim block missing")
 		}
+		if !manifest && r.Choose("enumerate-struct-mutations", 3) == 0 {
+			w.enumerateStructMutations(victim, raw, honest)
+		}
 		alt, desc := corruptBlock(r, raw, manifest, w.LinkKeyBytes)
 		if alt == nil {
 			r.Logf("corruption not applicable")
@@ -656,4 +659,54 @@ func (w *World) pbScenario() {
 			r.Violate("C12:remaining-history", "legacy history of %d blocks with block %d undecodable (%s): loaded %d entries, %d remain retrievable", n, victim, desc, got, n-1-victim)
 		}
 	}
+}
+
+// enumerateStructMutations: every field path x every mutation kind on one stored entry block,
+// decoded in-process; whatever decodes without error has every accessor, comparator and Verify
+// called on it.
+func (w *World) enumerateStructMutations(victim string, raw []byte, honest iface.IPFSLogEntry) {
+	r := w.R
+	count, decoded := 0, 0
+	for _, path := range entryFieldPaths {
+		for kind := range mutKinds {
+			var obj map[string]interface{}
+			if err := cbornode.DecodeInto(raw, &obj); err != nil {
+				return
+			}
+			if !mutateObj(obj, path, kind) {
+				continue
+			}
+			alt, err := encodeObj(obj)
+			if err != nil {
+				continue
+			}
+			count++
+			w.St.GetFaults[victim] = FaultCorrupt
+			w.St.Alt[victim] = alt
+			var dec iface.IPFSLogEntry
+			var derr error
+			out := Protect(func() {
+				dec, derr = entry.FromMultihashWithIO(w.ctx, w.St, w.Cids[victim], Writers()[0].ID.Provider, w.IO)
+			})
+			if out.Status == "violation" {
+				r.Violate("C12:decode-panic", "decoding a corrupted entry block (struct:%s:%s) panicked: %s", path, mutKinds[kind], out.Msg)
+			} else if out.Status != "ok" {
+				r.Harness("%s", out.Msg)
+			}
+			if derr == nil && dec != nil {
+				decoded++
+				out := Protect(func() { exerciseEntry(w, dec, honest) })
+				if out.Status == "violation" {
+					r.Violate("C12:accessor-panic", "an entry decoded without error from a corrupted block (struct:%s:%s) is not safe to use: %s", path, mutKinds[kind], out.Msg)
+				} else if out.Status != "ok" {
+					r.Harness("%s", out.Msg)
+				}
+			}
+		}
+	}
+	delete(w.St.GetFaults, victim)
+	delete(w.St.Alt, victim)
+	r.Add("enumerated-struct-mutations", int64(count))
+	r.Add("enumerated-struct-mutations-still-decoding", int64(decoded))
+	r.Probe("struct-mutations-enumerated-completely")
 }
